@@ -73,7 +73,13 @@ class CallMixin:
     # ------------------------------------------------------------------ repo functions
     def is_opaque(self, f: SFunc) -> bool:
         q = f.qual
-        return q in self.run.cfg.opaque
+        cfg = self.run.cfg
+        if q in cfg.opaque:
+            return True
+        if cfg.opaque_all and q not in cfg.inline and f.closure is None and not isinstance(f.node, ast.Lambda) \
+                and f.mod.name.startswith("htmltools"):
+            return True
+        return False
 
     def call_function(self, f: SFunc, args: List[Any], kwargs: Dict[str, Any], node: Optional[ast.AST] = None,
                       binds: Optional[Dict[str, Any]] = None, top: bool = False, dstar: Optional[List[Any]] = None) -> Any:
@@ -215,10 +221,26 @@ class CallMixin:
             return SBool(("call", f.qual, _ref(recv), tuple(short(a) for a in args)))
         o = SOpaque(descr, rk)
         o.__dict__["call"] = {"func": f, "recv": recv, "args": list(args), "kwargs": dict(kwargs)}
+        ro = self.run.cfg.return_origin.get(f.qual)
+        if rk is None and ro is not None:
+            rk = ALL_KINDS
         if rk is not None:
             so = SObj(f"{f.qual}(...)", rk, origin="opaque")
             so.meta["call"] = o.__dict__["call"]
             so.meta["descr"] = descr
+            if ret is not None and isinstance(ret, ast.Name):
+                tci = self.prog.get_class(ret.id, f.mod)
+                if tci is not None and self.prog.is_subclass(tci, "TypedDict"):
+                    so.meta["typed_dict"] = tci
+            if ro is not None:
+                # ownership of the result as established by the callee's own return summary
+                if ro.get("alias_self") and recv is not None:
+                    return recv
+                so.origin = "new" if ro.get("fresh") else "opaque"
+                if ro.get("fresh"):
+                    so.meta["copy_mode"] = None
+                    so.meta["fresh_fields"] = bool(ro.get("fields_fresh"))
+                    so.meta["elem_origin"] = "new" if ro.get("elems_fresh") else "opaque"
             return so
         return o
 
@@ -294,6 +316,20 @@ class CallMixin:
                 l = SList("concrete", list(items))
                 l.pytype = py.__name__
                 return l
+            if isinstance(v, (SObj, SNew)) and py in (list, tuple):
+                # a new container holding the elements of v
+                o2 = SObj(f"{py.__name__}({getattr(v, 'name', short(v))})", {"LIST" if py is list else "TUPLE"}, origin="new")
+                o2.meta["copy_of"] = v
+                o2.meta["copy_mode"] = "list"
+                o2.meta["list_ctor"] = py.__name__
+                o2.meta["elem_origin"] = _elem_origin(v)
+                if isinstance(v, SObj):
+                    ek = v.meta.get("elem_kinds")
+                    if ek is None and v.kinds <= frozenset({"TAGLIST"}):
+                        ek = NODE_KINDS - {"TAGLIST"}
+                    if ek is not None:
+                        o2.meta["elem_kinds"] = ek
+                return o2
             o = SOpaque((py.__name__, short(v)))
             o.__dict__["of"] = v
             o.__dict__["pytype"] = py.__name__
@@ -361,6 +397,15 @@ class CallMixin:
         raise self.unmodelled(f"isinstance class argument {short(v)}", node)
 
     def isinstance_(self, v: Any, cls: Any, node: Optional[ast.AST]) -> bool:
+        if isinstance(cls, SOpaque) and "type_of" in cls.__dict__:
+            other = cls.__dict__["type_of"]
+            try:
+                refs0 = self.typeref(cls, node)
+            except Unmodelled:
+                refs0 = None
+            if refs0 is None:
+                # isinstance(y, type(x)) with x of undetermined class
+                return self.run.decide(("isinstance-type-of", getattr(v, "uid", repr(v)), getattr(other, "uid", repr(other))))
         refs = self.typeref(cls, node)
         U = self.U
         if isinstance(v, SObj):
@@ -438,6 +483,7 @@ class CallMixin:
                 if isinstance(args[1], str):
                     return self.get_attr(args[0], args[1], node)
                 o = SOpaque(("getattr", short(args[0]), short(args[1])))
+                o.__dict__["getattr"] = tuple(args)
                 return o
             if nm == "hasattr":
                 return run.decide(("hasattr", _ref(args[0]), short(args[1])))
@@ -475,7 +521,28 @@ class CallMixin:
                 return _const_or(self.py_str(args[0], node))
             raise self.unmodelled(f"builtin {nm}", node)
         if x.mod == "typing" and nm == "cast":
-            return args[1]
+            # types-lite: a cast refines the kind set (the developer's claim is trusted; listed as an assumption)
+            v = args[1]
+            if isinstance(v, SObj) and len(v.kinds) > 1:
+                try:
+                    refs = self.typeref(args[0], node)
+                    sat = {k for k in v.kinds if any(self.U.kind_isinstance(k, t) for t in refs)}
+                except Unmodelled:
+                    sat = None
+                if sat is not None:
+                    if not sat:
+                        from .interp import Infeasible
+                        raise Infeasible()      # the path contradicts the cast
+                    v.kinds = frozenset(sat)
+            elif isinstance(v, SObj) and len(v.kinds) == 1:
+                try:
+                    refs = self.typeref(args[0], node)
+                    if not any(self.U.kind_isinstance(next(iter(v.kinds)), t) for t in refs):
+                        from .interp import Infeasible
+                        raise Infeasible()
+                except Unmodelled:
+                    pass
+            return v
         if x.mod == "copy" and nm in ("copy", "deepcopy") or (x.mod == "copy" and x.name is None):
             return self.copy_(args[0], nm == "deepcopy", node)
         if x.mod == "copy.copy" or q in ("copy.copy", "copy.deepcopy"):
@@ -527,47 +594,143 @@ class CallMixin:
         raise self.unmodelled(f"len of {short(v)}", node)
 
     # ---- copy ---------------------------------------------------------------------------
+    # ---- copy ---------------------------------------------------------------------------
+    def copy_mode_of_class(self, ci: ClassInfo) -> str:
+        """How copy.copy treats an instance: read from the class's own __copy__ (DESIGN 3.3)."""
+        cache = self.run.I.__dict__.setdefault("_copy_modes", {})
+        if ci.qualname in cache:
+            return cache[ci.qualname]
+        m = self.prog.find_method(ci, "__copy__")
+        if m is None:
+            if self.prog.is_subclass(ci, "dict") or self.prog.is_subclass(ci, "Dict"):
+                mode = "dict"
+            elif self.prog.is_subclass(ci, "UserString") or self.prog.is_subclass(ci, "str"):
+                mode = "value"
+            else:
+                mode = "alias"          # default object copy: a new object whose fields are the same objects
+        elif not m[0].module.name.startswith("htmltools"):
+            mode = "userlist" if m[0].name == "UserList" else "alias"
+        else:
+            mode = "fieldwise" if _is_dict_copy_idiom(m[1]) else "interpret"
+        cache[ci.qualname] = mode
+        return mode
+
+    def copy_mode(self, v: Any, node: Optional[ast.AST]) -> str:
+        if isinstance(v, SNew):
+            return self.copy_mode_of_class(v.cls) if isinstance(v.cls, ClassInfo) else "alias"
+        kinds = v.kinds
+        modes = set()
+        for k in kinds:
+            ci = self.U.repo_class(k)
+            if ci is not None:
+                modes.add(self.copy_mode_of_class(ci))
+            elif k in ("LIST", "SET"):
+                modes.add("list")
+            elif k in ("DICT",):
+                modes.add("dict")
+            elif k in ("STR", "JSXEXPR", "INT", "FLOAT", "NONE", "TRUE", "FALSE", "ELLIPSIS", "TUPLE", "BYTES", "RANGE", "VERSION", "CALLABLE", "SLICE"):
+                modes.add("immutable")
+            else:
+                modes.add("external")
+        if len(modes) > 1:
+            groups: Dict[str, set] = {}
+            for k in kinds:
+                probe = SObj("p", {k})
+                groups.setdefault(self.copy_mode(probe, node), set()).add(k)
+            self.split_kinds(v, node, [frozenset(g) for g in groups.values()])
+            return self.copy_mode(v, node)
+        return next(iter(modes))
+
     def copy_(self, v: Any, deep: bool, node: Optional[ast.AST]) -> Any:
         if not isinstance(v, Sym):
             return v
+        if isinstance(v, (SStr, SBool, SInt, SFunc, SClass, SExtern)):
+            return v
         self.run.effect("copy", v, None, deep, node)
-        if isinstance(v, SObj):
-            o = SObj(f"{'deepcopy' if deep else 'copy'}({v.name})", v.kinds, origin="new")
-            o.meta["copy_of"] = v
-            o.meta["deep"] = deep
+        if isinstance(v, SObj) and len(v.kinds) > 1 and not deep:
+            # class not yet determined: decide how the copy behaves when one of its fields is first looked at
+            o = SObj(f"copy({v.name})", v.kinds, origin="new")
+            o.known, o.in_sets, o.excluded = v.known, dict(v.in_sets), set(v.excluded)
             o.meta.update({k: val for k, val in v.meta.items() if k in ("elem_kinds", "value_kinds")})
-            # immutable scalars keep identity facts
-            o.known = v.known
-            o.in_sets = dict(v.in_sets)
-            o.excluded = set(v.excluded)
-            # shared kind facts: a copy has the same class as the original; tie them for later splits
-            o.meta["kind_twin"] = v
-            # attribute values of the copy: scalars equal those of the original
-            for a, val in v.attrs.items():
-                if isinstance(val, (SBool, str, int, float, bool, type(None))):
-                    o.attrs[a] = val
-                elif isinstance(val, SObj) and val.kinds <= frozenset({"STR", "JSXEXPR"}):
-                    o.attrs[a] = val
-            o.__dict__["copied_from_attrs"] = v
+            o.meta["copy_of"] = v
+            o.meta["copy_mode"] = "lazy"
+            o.meta["elem_origin"] = _elem_origin(v)
             return o
-        if isinstance(v, SNew):
-            o2 = SNew(v.cls, v.args, v.kwargs, v.star, v.dstar)
-            o2.attrs = dict(v.attrs)
-            o2.__dict__["copy_of"] = v
-            return o2
+        if isinstance(v, (SObj, SNew)):
+            mode = self.copy_mode(v, node)
+            if mode == "immutable":
+                return v
+            if mode == "interpret":
+                ci = self.class_of(v)
+                m = self.prog.find_method(ci, "__copy__")  # type: ignore[arg-type]
+                return self.call_method_def(v, m[0], m[1], [], {}, node)  # type: ignore[index]
+            nm = getattr(v, "name", None) or v.cls_name  # type: ignore[union-attr]
+            if isinstance(v, SNew):
+                o: Any = SNew(v.cls, v.args, v.kwargs, v.star, v.dstar)
+                o.__dict__["meta"] = {}
+                meta = o.__dict__["meta"]
+            else:
+                o = SObj(f"{'deepcopy' if deep else 'copy'}({nm})", v.kinds, origin="new")
+                meta = o.meta
+                o.known = v.known
+                o.in_sets = dict(v.in_sets)
+                o.excluded = set(v.excluded)
+                meta.update({k: val for k, val in v.meta.items() if k in ("elem_kinds", "value_kinds")})
+            meta["copy_of"] = v
+            meta["copy_mode"] = "deep" if deep else mode
+            src_elem = _elem_origin(v)
+            meta["elem_origin"] = "new" if deep else src_elem
+            return o
         if isinstance(v, SList):
             l = SList(v.mode, list(v.items), v.base, v.kinds, v.elt, v.var, v.name, v.cond)
             l.pytype = v.pytype
+            if deep:
+                l.items = [self.copy_(i, True, node) for i in l.items]
             return l
         if isinstance(v, SDict):
             d = SDict(v.name, dict(v.items), v.concrete)
             d.dstar = list(v.dstar)
+            d.__dict__.update({k: val for k, val in v.__dict__.items() if k in ("value_kinds",)})
+            if deep:
+                d.items = {k: self.copy_(val, True, node) for k, val in d.items.items()}
             return d
         if isinstance(v, SOpaque):
-            o3 = SOpaque(("copy", v.descr), v.kinds)
+            o3 = SOpaque(("deepcopy" if deep else "copy", v.descr), v.kinds)
             o3.__dict__["copy_of"] = v
+            o3.__dict__["deep"] = deep
             return o3
         return v
+
+    def copied_attr(self, o: Any, attr: str, node: Optional[ast.AST]) -> Any:
+        """Attribute of an object produced by copy_: derived lazily from the source object."""
+        meta = o.meta if isinstance(o, SObj) else o.__dict__.get("meta", {})
+        src = meta.get("copy_of")
+        mode = meta.get("copy_mode")
+        if src is None or mode is None:
+            return _MISSING
+        if mode == "lazy":
+            mode = self.copy_mode(o, node)
+            if mode == "interpret":
+                mode = "fieldwise"
+            meta["copy_mode"] = mode
+            if isinstance(src, SObj):
+                try:
+                    self.run.restrict(src, o.kinds)
+                except Exception:
+                    pass
+        base = self.get_attr(src, attr, node)
+        if isinstance(base, (SFunc, SBound)):
+            return _MISSING
+        if mode == "fieldwise":
+            val = self.copy_(base, False, node)
+        elif mode == "deep":
+            val = self.copy_(base, True, node)
+        elif mode == "userlist" and attr == "data":
+            val = self.copy_(base, False, node)
+        else:
+            val = base
+        o.attrs[attr] = val
+        return val
 
     # ------------------------------------------------------------------ bound builtin methods
     def call_bound(self, b: SBound, args: List[Any], kwargs: Dict[str, Any], node: Optional[ast.AST],
@@ -816,6 +979,39 @@ class CallMixin:
     def raise_exc(self, name: str, node: Optional[ast.AST]) -> None:
         from .interp import _Raise
         raise _Raise(SNew(name), node)
+
+
+_MISSING = object()
+
+
+def _elem_origin(v: Any) -> str:
+    m = v.meta if isinstance(v, SObj) else v.__dict__.get("meta", {}) if isinstance(v, SNew) else {}
+    return m.get("elem_origin") or getattr(v, "origin", "new")
+
+
+def _is_dict_copy_idiom(fn: ast.FunctionDef) -> bool:
+    """`new = {k: copy(v) for k, v in self.__dict__.items()}; cp = cls.__new__(cls); cp.__dict__.update(new); return cp`."""
+    has_comp = has_update = has_new = False
+    for n in ast.walk(fn):
+        if isinstance(n, ast.DictComp) and len(n.generators) == 1:
+            g = n.generators[0]
+            it = g.iter
+            if isinstance(it, ast.Call) and isinstance(it.func, ast.Attribute) and it.func.attr == "items" \
+                    and isinstance(it.func.value, ast.Attribute) and it.func.value.attr == "__dict__" \
+                    and isinstance(it.func.value.value, ast.Name) and it.func.value.value.id == "self" and not g.ifs:
+                v = n.value
+                if isinstance(v, ast.Call) and not v.keywords and len(v.args) == 1 and ast.unparse(v.func) in ("copy", "copy.copy") \
+                        and isinstance(g.target, ast.Tuple) and len(g.target.elts) == 2 and isinstance(v.args[0], ast.Name) \
+                        and isinstance(g.target.elts[1], ast.Name) and v.args[0].id == g.target.elts[1].id \
+                        and isinstance(n.key, ast.Name) and isinstance(g.target.elts[0], ast.Name) and n.key.id == g.target.elts[0].id:
+                    has_comp = True
+        if isinstance(n, ast.Call) and isinstance(n.func, ast.Attribute) and n.func.attr == "update" \
+                and isinstance(n.func.value, ast.Attribute) and n.func.value.attr == "__dict__":
+            has_update = True
+        if isinstance(n, ast.Call) and isinstance(n.func, ast.Attribute) and n.func.attr == "__new__":
+            has_new = True
+    rets = [n for n in ast.walk(fn) if isinstance(n, ast.Return)]
+    return has_comp and has_update and has_new and len(rets) == 1
 
 
 _EXC = {"TypeError", "ValueError", "RuntimeError", "KeyError", "IndexError", "Exception", "NotImplementedError",
